@@ -47,6 +47,8 @@ const (
 	kSpawn
 	kEnd
 	kStart
+	kPend
+	kArrive
 )
 
 // hbEvent records one event of the running thread on object o (nil: thread-local event).
